@@ -70,8 +70,8 @@ try:
             ninstr += e3.check_trampoline(funcs, ob, got['frame'], facts)
             ob.rename_pending(n0, ' [exit function %s, stack size %d]' % ('given' if exitfn else 'default', stk))
 except e3.Unmodelled as e:
-    problems.append('asm->SMT: ' + str(e))
-    viols.append({'family': 'asm', 'kind': 'asm', 'label': 'unmodelled instruction', 'msg': 'the assembled context switch contains something outside the semantics table: ' + str(e), 'where': 'cmi_coroutine_context.asm', 'tags': {}, 'inputs': {}})
+    # no verdict is not a violation: the check cannot decide this assembly until the instruction form is added to lib/e3.py
+    problems.append('asm->SMT: the assembled context switch contains something outside the semantics table (no verdict): ' + str(e))
 ob.run_all()
 for r in ob.results:
     if not r['ok']:
@@ -100,6 +100,8 @@ fam('transfer-ring', 'START0 START1 RESUME0 RESUME1 RESUME0', ['YIELD XFER1 YIEL
 fam('nested-start', 'START0 RESUME0 RESUME1', ['START1 YIELD RET', 'YIELD YIELD YIELD YIELD'])
 fam('stop-other', 'START0 START1 RESUME0 RESUME1', ['YIELD STOP1 RET', 'YIELD YIELD RET'])
 fam('stop-self', 'START0 RESUME0 START0', ['YIELD STOP0 RET'])
+fam('restart-from-another-coroutine', 'START0 START1 RESUME1 START0', ['RET', 'START0 YIELD START0 RET'])      # the ending run goes back to whoever started *this* run
+fam('restart-after-exit-from-another', 'START0 START1 START0', ['EXIT', 'START0 RET'])
 fam('transfer-to-main', 'START0 RESUME0 START1 RESUME0', ['XFERM YIELD RET', 'XFER0 RET'])
 fam('three-coroutines', 'START0 START1 START2 RESUME0 RESUME1 RESUME2 RESUME0', ['YIELD XFER1 RET', 'YIELD XFER2 YIELD RET', 'YIELD DEEP XFER0 RET'], tier='thorough', w=5)
 c.run_e1(fams, assumptions=['E1 switches contexts by the contract that the E3 obligations establish for the assembled object',
